@@ -89,7 +89,7 @@ def calls_strategy(draw, types=("deletion",)):
     n = draw(st.integers(0, 12))
     unique = draw(st.sampled_from([True, True, True, False]))
     calls = []
-    pos = {1: draw(st.integers(0, 200000)), 2: 0, 3: 0}
+    pos = {1: draw(st.integers(0, 200000)) + draw(st.sampled_from([0, 0, 0, 2 ** 24 + 1, 152_600_007, 2 ** 31 + 11])), 2: 0, 3: 0}
     base = pos[1]
     pos[2] = base + draw(st.sampled_from([0, 10000, 29000, 31000, 200000]))
     pos[3] = base + draw(st.sampled_from([0, 15000, 45000]))
